@@ -107,6 +107,7 @@ class C15(core.Check):
     ID = 'C15'
     RUN_MODULE = 'Corr.Run_C15'
     RUN_FN = 'run_C15'
+    CASE_TYPE = '(Z * Z * list bool * list string * list (list string) * list event)'
     SHARD = 200
     CASE_TIMEOUT = 90
     RULE = ('event histories (construct an expression object in a slot / evaluate a held object on a tree / evaluate by text) '
